@@ -624,7 +624,9 @@ fn eval_c07(case: &Case, sc: &mut Scratch, res: &mut EvalResult) {
                     .map(|op| op.path.clone())
                     .collect();
                 let parse_related = all.contains("Parsing failed") || all.contains("Failed traversing") || all.contains("Parsing error") || all.contains("Errors encountered during parsing");
-                if parse_related {
+                // (a failure right after an injected read / readdir fault is a read failure whatever
+                // its wording)
+                if parse_related || !read_culprits.is_empty() {
                     let mut candidates: Vec<String> = read_culprits.clone();
                     // (a path may show up lossily or Debug-escaped when it is not valid UTF-8)
                     let read_forms: Vec<String> = tree
